@@ -2,7 +2,7 @@ From Coq Require Import Extraction ExtrOcamlBasic ExtrOcamlString.
 From GW Require Import Base CalMatch.
 Extraction Language OCaml.
 Extraction "model_c06.ml"
-  match_top filter_objs rfc4791_comp
+  match_top filter_objs rfc4791_comp rfc3_comp
   match_agrees match_spec_ok
   filter_agrees filter_spec_ok
   times_ok rset_ok no_recurring.
